@@ -25,14 +25,14 @@ def toutStr {α} (f : α → String) : TOut α → String
 
 /-- a script is benign when every byte of the stream is deliverable before any error, whatever room
     the reader offers: no error except on the last entry, every k ∈ {0,1} ∪ [2^20,∞), enough
-    productive entries, and no run of ≥ 100 empty reads -/
+    productive entries, and no run of ≥ maxConsecutiveEmptyReads (the regenerated constant) empty reads -/
 def benignAux : List Resp → Nat → Nat → Bool
   | [], _, _ => true
   | r :: rest, zeros, _n =>
     let kOk := r.k ≤ 1 || r.k ≥ 1048576
     let errOk := r.err.isNone || rest.isEmpty
     let zeros' := if r.k = 0 then zeros + 1 else 0
-    kOk && errOk && zeros' < 100 && benignAux rest zeros' 0
+    kOk && errOk && zeros' < Facts.maxConsecutiveEmptyReads && benignAux rest zeros' 0
 
 def benign (s : Src) : Bool :=
   benignAux s.script 0 0 &&
